@@ -6,8 +6,10 @@ CONSTANTS
   ValIds = {"x", "e"}
   MaxPos = 1
   Kinds = {"compress", "bytes", "logbytes", "json", "rlp"}
+  Prefill = FALSE
+  Reads = TRUE
   MaxOps = 1000
   Proj <- NoProj
 VIEW ViewState
 INVARIANTS NoFalseNegative Exact
-PROPERTIES QueriesSound MergeKeeps CollectCovers Monotone
+PROPERTIES QueriesSound MergeKeeps CollectCovers NoStaleSerialization Monotone
